@@ -40,6 +40,27 @@ type Result struct {
 	ResponseType     string `json:"responseType"` // Added for sdk generation (discriminator in oneOf)
 }
 
+// decodeTargetID reads the target of a metadata action as what its target type
+// designates: an account address (a JSON string) or a transaction id (a JSON number).
+func decodeTargetID(targetType string, raw json.RawMessage) (any, error) {
+	switch targetType {
+	case ledger.MetaTargetTypeAccount:
+		var address string
+		if err := json.Unmarshal(raw, &address); err != nil {
+			return nil, err
+		}
+		return address, nil
+	case ledger.MetaTargetTypeTransaction:
+		id := big.NewInt(0)
+		if err := json.Unmarshal(raw, id); err != nil {
+			return nil, err
+		}
+		return id, nil
+	default:
+		return nil, fmt.Errorf("unexpected target type '%s'", targetType)
+	}
+}
+
 func ProcessBulk(ctx context.Context, l backend.Ledger, bulk Bulk, continueOnFailure bool) ([]Result, bool, error) {
 	ret := make([]Result, 0, len(bulk))
 
@@ -107,14 +128,8 @@ func ProcessBulk(ctx context.Context, l backend.Ledger, bulk Bulk, continueOnFai
 				continue
 			}
 
-			var targetID any
-			switch req.TargetType {
-			case ledger.MetaTargetTypeAccount:
-				targetID = ""
-			case ledger.MetaTargetTypeTransaction:
-				targetID = big.NewInt(0)
-			}
-			if err := json.Unmarshal(req.TargetID, &targetID); err != nil {
+			targetID, err := decodeTargetID(req.TargetType, req.TargetID)
+			if err != nil {
 				bulkError(element.Action, ErrValidation, fmt.Errorf("error parsing element %d: %s", i, err))
 				if !continueOnFailure {
 					return ret, errorsInBulk, nil
@@ -187,14 +202,8 @@ func ProcessBulk(ctx context.Context, l backend.Ledger, bulk Bulk, continueOnFai
 				continue
 			}
 
-			var targetID any
-			switch req.TargetType {
-			case ledger.MetaTargetTypeAccount:
-				targetID = ""
-			case ledger.MetaTargetTypeTransaction:
-				targetID = big.NewInt(0)
-			}
-			if err := json.Unmarshal(req.TargetID, &targetID); err != nil {
+			targetID, err := decodeTargetID(req.TargetType, req.TargetID)
+			if err != nil {
 				bulkError(element.Action, ErrValidation, fmt.Errorf("error parsing element %d: %s", i, err))
 				if !continueOnFailure {
 					return ret, errorsInBulk, nil
@@ -202,7 +211,7 @@ func ProcessBulk(ctx context.Context, l backend.Ledger, bulk Bulk, continueOnFai
 				continue
 			}
 
-			err := l.DeleteMetadata(ctx, parameters, req.TargetType, targetID, req.Key)
+			err = l.DeleteMetadata(ctx, parameters, req.TargetType, targetID, req.Key)
 			if err != nil {
 				var code string
 				switch {
